@@ -169,6 +169,11 @@ class Threads(EngineBase):
                 ops.append({"op": rng.choice(["exit", "exit", "exit_exc"])})
             elif r < 0.30:
                 ops.append({"op": "str", "how": rng.choice(["str", "repr"])})
+            elif r < 0.33:
+                # the caller changes a setting of the process (inside a
+                # block too): the block's records stay what they are
+                ops.append({"op": "set", "m": rng.choice(
+                    ["cpu_affinity", "cpu_affinity", "nice", "ionice"])})
             elif r < 0.62:
                 ops.append({"op": "get", "m": rng.choice(ALL_GETTERS)})
                 if rng.random() < 0.06:
@@ -330,6 +335,14 @@ class Threads(EngineBase):
                     out = ("value", None)
                 elif kind == "str":
                     out = ("value", op["how"] == "repr" and repr(p) or str(p))
+                elif kind == "set":
+                    if op["m"] == "cpu_affinity":
+                        p.cpu_affinity([W.boot["cpu_ids"][0]])
+                    elif op["m"] == "nice":
+                        p.nice(7)
+                    else:
+                        p.ionice(psutil.IOPRIO_CLASS_BE, 5)
+                    out = ("value", None)
                 elif kind == "get":
                     if op.get("esrch"):
                         # this one record answers ESRCH although the process
@@ -452,6 +465,21 @@ class Threads(EngineBase):
                     block = None
                 continue
             zombie = T in k.procs and k.procs[T].zombie
+            if kind == "set":
+                if out[0] == "exc" and exc_class(psutil, out[1]) not in (
+                        "NSP", "ZP", "AD"):
+                    V("C16.exception", [type(out[1]).__name__], op["m"],
+                      "%s(value) raised %r" % (op["m"], out[1]))
+                elif stack and block is not None:
+                    for w, v in reads.items():
+                        block["first"].setdefault(w, v)
+                    block.setdefault("allreads", []).extend(allreads)
+                    for w, n in opens.items():
+                        block["opens"][w] = block["opens"].get(w, 0) + n
+                    probes["setter_inside_block"] = probes.get(
+                        "setter_inside_block", 0) + 1
+                just_exited = False
+                continue
             if kind == "str":
                 # printing the object (logging, a debugger) is an implicit
                 # nested block: it changes nothing for the enclosing one
@@ -1899,6 +1927,7 @@ Threads.COMPONENTS = {
 }
 Threads.PROBES_BY_PROP = {
     "C16": ["same_answer_checked", "served_from_cache_while_changed",
+            "setter_inside_block",
             "nested_enter", "call_right_after_exit", "valid_value_checked",
             "voluntary_switches", "block_exit_exit_exc"],
     "C04": ["voluntary_switches", "eventual_coherence_checked",
